@@ -29,8 +29,9 @@ MAX_PATHS = 64
 
 
 class Case:
-    def __init__(self, guards, value, stores, raised, ret_node):
+    def __init__(self, guards, value, stores, raised, ret_node, attrs=None):
         self.guards, self.value, self.stores, self.raised, self.ret_node = guards, value, stores, raised, ret_node
+        self.attrs = dict(attrs or {})      # 'self.x' -> (value with locals substituted, statement): the LAST store on this path
         rv = getattr(ret_node, "value", None)
         self.ret_name = rv.id if isinstance(rv, ast.Name) else None
 
@@ -75,13 +76,14 @@ def subst(e: ast.AST, env) -> ast.AST:
 
 
 class _State:
-    def __init__(self, env=None, stores=None, guards=None):
+    def __init__(self, env=None, stores=None, guards=None, attrs=None):
         self.env: Dict[str, Optional[ast.AST]] = dict(env or {})
         self.stores: Dict[str, list] = {k: list(v) for k, v in (stores or {}).items()}
         self.guards: list = list(guards or [])
+        self.attrs: Dict[str, tuple] = dict(attrs or {})
 
     def fork(self):
-        return _State(self.env, self.stores, self.guards)
+        return _State(self.env, self.stores, self.guards, self.attrs)
 
 
 def cases(func: Func, max_paths: int = MAX_PATHS) -> Optional[List[Case]]:
@@ -106,12 +108,12 @@ def cases(func: Func, max_paths: int = MAX_PATHS) -> Optional[List[Case]]:
         s, rest = stmts[0], stmts[1:]
         if isinstance(s, ast.Return):
             v = subst(s.value, st.env) if s.value is not None else None
-            out.append(Case(st.guards, v, st.stores, False, s))
+            out.append(Case(st.guards, v, st.stores, False, s, st.attrs))
             if len(out) > max_paths:
                 over[0] = True
             return
         if isinstance(s, ast.Raise):
-            out.append(Case(st.guards, None, st.stores, True, s))
+            out.append(Case(st.guards, None, st.stores, True, s, st.attrs))
             return
         if isinstance(s, ast.Assign) and len(s.targets) == 1:
             t = s.targets[0]
@@ -123,6 +125,8 @@ def cases(func: Func, max_paths: int = MAX_PATHS) -> Optional[List[Case]]:
                 vals = [subst(v, st.env) for v in s.value.elts]
                 for x, v in zip(t.elts, vals):
                     st.env[x.id] = v
+            elif isinstance(t, ast.Attribute) and isinstance(t.value, ast.Name):
+                st.attrs[unparse(t)] = (subst(s.value, st.env), s)
             elif isinstance(t, ast.Subscript):
                 base = t
                 while isinstance(base, ast.Subscript):
@@ -155,25 +159,29 @@ def cases(func: Func, max_paths: int = MAX_PATHS) -> Optional[List[Case]]:
             test = subst(s.test, st.env)
             pos, neg = conjuncts(test, True), conjuncts(test, False)
 
-            def branch(body, atoms):
+            def branch(body, atoms, positive):
                 b = st.fork()
-                b.guards = b.guards + (atoms if atoms is not None else [("?" + unparse(test), True, test)])
+                # a test that is not a conjunction of atoms on this side is kept whole: ("?<text>", taken?, test)
+                b.guards = b.guards + (atoms if atoms is not None else [("?" + unparse(test), positive, test)])
                 run(list(body), b, lambda s2: run(rest, s2, cont))
-            branch(s.body, pos)
-            branch(s.orelse, neg)
+            branch(s.body, pos, True)
+            branch(s.orelse, neg, False)
             return
         if isinstance(s, (ast.For, ast.While, ast.With, ast.Try)):
             # opaque region: forget what it assigns, keep going (returns inside it are not enumerated)
             for nm in assigned_names([s]):
                 st.env[nm] = None
                 st.stores.pop(nm, None)
+            for n in ast.walk(s):
+                if isinstance(n, ast.Attribute) and isinstance(n.ctx, ast.Store):
+                    st.attrs[unparse(n)] = (None, s)
             run(rest, st, cont)
             return
         # expression statements, asserts, pass, nested defs ...
         run(rest, st, cont)
 
     body = list(func.node.body)
-    run(body, _State(), lambda st: out.append(Case(st.guards, None, st.stores, False, None)))
+    run(body, _State(), lambda st: out.append(Case(st.guards, None, st.stores, False, None, st.attrs)))
     if over[0]:
         return None
     # a conditional expression at the top of a returned value is one more branch
@@ -185,9 +193,9 @@ def cases(func: Func, max_paths: int = MAX_PATHS) -> Optional[List[Case]]:
             v = c.value
             if isinstance(v, ast.IfExp):
                 pos, neg = conjuncts(v.test, True), conjuncts(v.test, False)
-                for atoms, val in ((pos, v.body), (neg, v.orelse)):
-                    g = c.guards + (atoms if atoms is not None else [("?" + unparse(v.test), True, v.test)])
-                    n = Case(g, val, c.stores, False, c.ret_node)
+                for atoms, val, positive in ((pos, v.body, True), (neg, v.orelse, False)):
+                    g = c.guards + (atoms if atoms is not None else [("?" + unparse(v.test), positive, v.test)])
+                    n = Case(g, val, c.stores, False, c.ret_node, c.attrs)
                     nxt.append(n)
                 changed = True
             else:
